@@ -1382,6 +1382,10 @@ void Backend::reset()
     freeLargeBlockBins.reset();
     freeSlabAlignedBins.reset();
     advRegBins.reset();
+    // Blocks whose coalescing was delayed lie inside the regions that become free as a whole below.
+    // Forget them: processing the queue later would put their memory into the bins a second time.
+    for (FreeBlock *delayed = coalescQ.getAll(); delayed; delayed = delayed->nextToFree)
+        coalescQ.blockWasProcessed();
 
     for (MemRegion *curr = regionList.head; curr; curr = curr->next) {
         FreeBlock *fBlock = findBlockInRegion(curr, curr->blockSz);
